@@ -2099,6 +2099,22 @@ package goatlang
 //@   ensures#else len(elseI) > 0 ==> len(res) >= len(thenI) + len(elseI) + 2 && res[len(res)-len(elseI)-len(thenI)-2].Code == codeJumpFalse && int(res[len(res)-len(elseI)-len(thenI)-2].A) == len(thenI) + 1 && res[len(res)-len(elseI)-1].Code == codeJump && int(res[len(res)-len(elseI)-1].A) == len(elseI)
 //@   ensures#thenplaced len(elseI) > 0 ==> (forall j int :: 0 <= j && j < len(thenI) ==> res[len(res)-len(elseI)-len(thenI)-1+j] == thenI[j])
 //@   ensures#elseplaced len(elseI) > 0 ==> (forall j int :: 0 <= j && j < len(elseI) ==> res[len(res)-len(elseI)+j] == elseI[j])
+//@ -- a packed position keeps its four fields apart: each holds its value, saturated at 65535
+//@ func clamp16
+//@   property C03 C20
+//@   intmode bv
+//@   pure
+//@   nopanic
+//@   ensures#def result == ite(n < 0, 0, ite(n > 65535, 65535, n))
+//@ func packPos
+//@   property C03 C20
+//@   intmode bv
+//@   reveal clamp16
+//@   nopanic
+//@   ensures#file int((result >> 48) & 0xffff) == ite(fileNameIdx < 0, 0, ite(fileNameIdx > 65535, 65535, fileNameIdx))
+//@   ensures#func int((result >> 32) & 0xffff) == ite(funcNameIdx < 0, 0, ite(funcNameIdx > 65535, 65535, funcNameIdx))
+//@   ensures#line int((result >> 16) & 0xffff) == ite(line < 0, 0, ite(line > 65535, 65535, line))
+//@   ensures#column int(result & 0xffff) == ite(column < 0, 0, ite(column > 65535, 65535, column))
 //@ func newPos
 //@   property C20 C06
 //@   trusted
